@@ -33,6 +33,8 @@ def tsan_reports(err):
             kind = "W" if "rite" in m.group(1) else "R"
             sites.append(f"{kind}{m.group(2)}:{m.group(3)}@{os.path.basename(m.group(4))}")
         # key = access kind+size, function and file of both sides (no line numbers: they move with unrelated edits)
+        if not sites:
+            continue   # no frame with source position inside the code under test (harness / libc internals while reporting a fatal event)
         key = "race:" + "|".join(sorted(set(sites[:2])))
         out.append((key, blk[:1500]))
     return out
